@@ -256,14 +256,24 @@ theorem MForm_cast {q : ℕ} [Fact q.Prime] (a : ℕ) (h2 : 2 * q ≤ W) (ha : a
 
 /-- **tables_invariant.**  For a prime `q` with `8q ≤ 2^64` and `q ≡ 1 (mod 2^(K+1))`, and `g` a
 quadratic non-residue mod `q` (`g^((q−1)/2) ≡ −1`; every primitive root is one), the tables computed
-by `mkTables (2^K) q (2^(K+1)) g` (the model of `generateNTTConstants`) satisfy all the hypotheses
+by `mkTables n q (2^(K+1)) g` (the model of `generateNTTConstants`; `n` only fills the field `T.n`:
+`n = 2^K` for the standard ring, `n = 2^(K−1)` for the conjugate-invariant ring) satisfy all the hypotheses
 `Valid` used by `intt_ntt`/`ntt_range` and the table invariant used by `fwd_sem`/`ntt_mul`:
 `ψ = g^((q−1)/2^(K+1))` has `ψ^(2^K) = −1`, `rootsF[j] = ψ^{brv_K(j)}·W`, `rootsB[j] = ψ^{−brv_K(j)}·W`,
 `nInv = (2^K)⁻¹·W (mod q)`. -/
-theorem mkTables_valid (K q g : ℕ) (hq : q.Prime) (h8 : 8 * q ≤ W) (hdiv : 2 ^ (K + 1) ∣ q - 1)
+theorem mkTables_core (n K q g : ℕ) (hq : q.Prime) (h8 : 8 * q ≤ W) (hdiv : 2 ^ (K + 1) ∣ q - 1)
     (hg : g ^ ((q - 1) / 2) % q = q - 1) :
-    Valid (mkTables (2 ^ K) q (2 ^ (K + 1)) g) K
-    ∧ TableInv (rho q (mkTables (2 ^ K) q (2 ^ (K + 1)) g).rootsF) (2 ^ K) := by
+    MontConst q (GenMRedConstant q)
+    ∧ RootsLt (mkTables n q (2 ^ (K + 1)) g).rootsF q
+    ∧ RootsLt (mkTables n q (2 ^ (K + 1)) g).rootsB q
+    ∧ (∀ j, j < 2 ^ K → ((mkTables n q (2 ^ (K + 1)) g).rootsF[j]!
+          * (mkTables n q (2 ^ (K + 1)) g).rootsB[j]!) % q = (W * W) % q)
+    ∧ (mkTables n q (2 ^ (K + 1)) g).nInv < q
+    ∧ ((mkTables n q (2 ^ (K + 1)) g).nInv * 2 ^ K) % q = W % q
+    ∧ TableInv (rho q (mkTables n q (2 ^ (K + 1)) g).rootsF) (2 ^ K)
+    ∧ (((g : ℕ) : ZMod q) ^ ((q - 1) / 2 ^ (K + 1))) ^ 2 ^ K = -1
+    ∧ ∀ idx, idx < 2 ^ K → rho q (mkTables n q (2 ^ (K + 1)) g).rootsF idx
+        = (((g : ℕ) : ZMod q) ^ ((q - 1) / 2 ^ (K + 1))) ^ bitRev idx K := by
   have : Fact q.Prime := ⟨hq⟩
   have hq2 := hq.two_le
   obtain ⟨m, hm⟩ := hdiv
@@ -330,14 +340,13 @@ theorem mkTables_valid (K q g : ℕ) (hq : q.Prime) (h8 : 8 * q ≤ W) (hdiv : 2
   have hψhalf : (((g : ℕ) : ZMod q) ^ m) ^ 2 ^ K = -1 := by
     rw [← pow_mul, Nat.mul_comm]; exact hgZ
   -- unfold the table
-  have eq_q : (mkTables (2 ^ K) q (2 ^ (K + 1)) g).q = q := rfl
-  have eq_F : (mkTables (2 ^ K) q (2 ^ (K + 1)) g).rootsF
+  have eq_F : (mkTables n q (2 ^ (K + 1)) g).rootsF
       = genRoots q (GenMRedConstant q) (brc q) (2 ^ (K + 1))
           (MForm (modExp g ((q - 1) / 2 ^ (K + 1)) q) q (brc q)) := rfl
-  have eq_B : (mkTables (2 ^ K) q (2 ^ (K + 1)) g).rootsB
+  have eq_B : (mkTables n q (2 ^ (K + 1)) g).rootsB
       = genRoots q (GenMRedConstant q) (brc q) (2 ^ (K + 1))
           (MForm (modExp g (q - ((q - 1) / 2 ^ (K + 1)) - 1) q) q (brc q)) := rfl
-  have eq_N : (mkTables (2 ^ K) q (2 ^ (K + 1)) g).nInv
+  have eq_N : (mkTables n q (2 ^ (K + 1)) g).nInv
       = MForm (modExp (2 ^ (K + 1) / 2) (q - 2) q) q (brc q) := rfl
   rw [he] at eq_F eq_B
   rw [hhalf] at eq_N
@@ -363,11 +372,11 @@ theorem mkTables_valid (K q g : ℕ) (hq : q.Prime) (h8 : 8 * q ≤ W) (hdiv : 2
     rw [this]
     have e1 : q - 2 + 1 = q - 1 := by omega
     rw [e1, ZMod.pow_card_sub_one_eq_one h2K, one_mul]
-  refine ⟨⟨rfl, hq, h8, hmont, rfl, ?_, ?_, ?_, ?_, ?_⟩, ?_⟩
+  refine ⟨hmont, ?_, ?_, ?_, ?_, ?_, ?_, ?_⟩
   · rw [eq_F]; exact hFlt
   · rw [eq_B]; exact hBlt
-  · intro j _ hj
-    rw [eq_q, eq_F, eq_B]
+  · intro j hj
+    rw [eq_F, eq_B]
     apply natCast_mod_eq_of_cast_eq
     have h1 := hF j hj
     have h2' := hB j hj
@@ -388,8 +397,7 @@ theorem mkTables_valid (K q g : ℕ) (hq : q.Prime) (h8 : 8 * q ≤ W) (hdiv : 2
             * ((W : ZMod q) * (W : ZMod q)) := by rw [mul_pow]; ring
       _ = (W : ZMod q) * (W : ZMod q) := by rw [hψψ', one_pow, one_mul]
   · rw [eq_N]; exact hNlt
-  · have eq_n : (mkTables (2 ^ (K)) q (2 ^ (K + 1)) g).n = 2 ^ K := rfl
-    rw [eq_N, eq_q, eq_n]
+  · rw [eq_N]
     apply natCast_mod_eq_of_cast_eq
     rw [Nat.cast_mul, Nat.cast_pow, Nat.cast_ofNat]
     exact hN
@@ -410,7 +418,86 @@ theorem mkTables_valid (K q g : ℕ) (hq : q.Prime) (h8 : 8 * q ≤ W) (hdiv : 2
     · have : j = 1 := by omega
       subst this
       rw [cnode_one, bitRev_one, ← Nat.pow_succ, hψhalf]
+  · rw [he, eq_F]; exact ⟨hψhalf, hF⟩
 
+
+theorem mkTables_all (K q g : ℕ) (hq : q.Prime) (h8 : 8 * q ≤ W) (hdiv : 2 ^ (K + 1) ∣ q - 1)
+    (hg : g ^ ((q - 1) / 2) % q = q - 1) :
+    Valid (mkTables (2 ^ K) q (2 ^ (K + 1)) g) K
+    ∧ TableInv (rho q (mkTables (2 ^ K) q (2 ^ (K + 1)) g).rootsF) (2 ^ K)
+    ∧ (((g : ℕ) : ZMod q) ^ ((q - 1) / 2 ^ (K + 1))) ^ 2 ^ K = -1
+    ∧ ∀ idx, idx < 2 ^ K → rho q (mkTables (2 ^ K) q (2 ^ (K + 1)) g).rootsF idx
+        = (((g : ℕ) : ZMod q) ^ ((q - 1) / 2 ^ (K + 1))) ^ bitRev idx K := by
+  obtain ⟨hm, hF, hB, hinv, hN1, hN2, hT, h1, h2⟩ := mkTables_core (2 ^ K) K q g hq h8 hdiv hg
+  exact ⟨⟨rfl, hq, h8, hm, rfl, hF, hB, fun j _ hj => hinv j hj, hN1, hN2⟩, hT, h1, h2⟩
+
+theorem mkTables_valid (K q g : ℕ) (hq : q.Prime) (h8 : 8 * q ≤ W) (hdiv : 2 ^ (K + 1) ∣ q - 1)
+    (hg : g ^ ((q - 1) / 2) % q = q - 1) :
+    Valid (mkTables (2 ^ K) q (2 ^ (K + 1)) g) K
+    ∧ TableInv (rho q (mkTables (2 ^ K) q (2 ^ (K + 1)) g).rootsF) (2 ^ K) :=
+  ⟨(mkTables_all K q g hq h8 hdiv hg).1, (mkTables_all K q g hq h8 hdiv hg).2.1⟩
+
+/-- `brv_{L+1}(2^L + i) = 2·brv_L(i) + 1` for `i < 2^L` -/
+theorem bitRev_top (L i : ℕ) (hi : i < 2 ^ L) : bitRev (2 ^ L + i) (L + 1) = 2 * bitRev i L + 1 := by
+  rw [bitRev_succ_last, ← bitRev_mod L (2 ^ L + i), Nat.add_mod_left, Nat.mod_eq_of_lt hi]
+  have : (2 ^ L + i) / 2 ^ L = 1 := by
+    rw [Nat.add_div_left _ (Nat.two_pow_pos L), Nat.div_eq_of_lt hi]
+  rw [this]; omega
+
+/-- **Closed form of the evaluation points** for the generated tables: leaf `t` of the forward
+transform evaluates at `ψ^(2·brv_K(t)+1)`, `ψ = g^((q−1)/2N)` a primitive `2N`-th root of unity
+(`ψ^N = −1`). -/
+theorem mkTables_pt (K q g : ℕ) (hK : 1 ≤ K) (hq : q.Prime) (h8 : 8 * q ≤ W)
+    (hdiv : 2 ^ (K + 1) ∣ q - 1) (hg : g ^ ((q - 1) / 2) % q = q - 1) (t : ℕ) (ht : t < 2 ^ K) :
+    pt (rho q (mkTables (2 ^ K) q (2 ^ (K + 1)) g).rootsF) K 1 t
+      = (((g : ℕ) : ZMod q) ^ ((q - 1) / 2 ^ (K + 1))) ^ (2 * bitRev t K + 1) := by
+  obtain ⟨_, _, hhalf, hF⟩ := mkTables_all K q g hq h8 hdiv hg
+  obtain ⟨L, rfl⟩ : ∃ L, K = L + 1 := ⟨K - 1, by omega⟩
+  rw [pt_eq_cnode _ _ _ _ ht, Nat.one_mul]
+  have hp : 2 ^ (L + 1) = 2 * 2 ^ L := by rw [Nat.pow_succ]; omega
+  have ht2 : t / 2 < 2 ^ L := by omega
+  have hbt := bitRev_succ_first L t
+  have htop := bitRev_top L (t / 2) ht2
+  rcases Nat.mod_two_eq_zero_or_one t with h0 | h1
+  · have e : 2 ^ (L + 1) + t = 2 * (2 ^ L + t / 2) := by omega
+    rw [e, cnode_even _ _ (by have := Nat.two_pow_pos L; omega), hF _ (by omega), htop, hbt, h0]
+    congr 1; omega
+  · have e : 2 ^ (L + 1) + t = 2 * (2 ^ L + t / 2) + 1 := by omega
+    rw [e, cnode_odd _ _ (by have := Nat.two_pow_pos L; omega), hF _ (by omega), htop, hbt, h1,
+      ← neg_one_mul, ← hhalf, ← pow_add]
+    congr 1
+    rw [hp]; omega
+
+
+theorem getD_map_cast {q : ℕ} (a : List ℕ) (i : ℕ) :
+    (a.map (Nat.cast : ℕ → ZMod q)).getD i 0 = ((a.getD i 0 : ℕ) : ZMod q) := by
+  by_cases h : i < a.length
+  · simp [List.getD, h]
+  · simp [List.getD, h]
+
+open Finset in
+/-- **ntt_eval** (closed form, generated tables): entry `t` of `nttStd` is
+`Σ_i a_i ψ^{i(2·brv_K(t)+1)}` in `Z_q`, `ψ = g^((q−1)/2N)`. -/
+theorem nttStd_mkTables_eval (K q g : ℕ) (hK : 1 ≤ K) (hq : q.Prime) (h8 : 8 * q ≤ W)
+    (hdiv : 2 ^ (K + 1) ∣ q - 1) (hg : g ^ ((q - 1) / 2) % q = q - 1)
+    (a : List ℕ) (hlen : a.length = 2 ^ K) (ha : ∀ x ∈ a, x < q) :
+    (nttStd (mkTables (2 ^ K) q (2 ^ (K + 1)) g) a).map (Nat.cast : ℕ → ZMod q)
+      = (List.range (2 ^ K)).map (fun t => ∑ i ∈ range (2 ^ K), ((a.getD i 0 : ℕ) : ZMod q)
+          * ((((g : ℕ) : ZMod q) ^ ((q - 1) / 2 ^ (K + 1))) ^ (2 * bitRev t K + 1)) ^ i) := by
+  have : Fact q.Prime := ⟨hq⟩
+  obtain ⟨hT, hinv⟩ := mkTables_valid K q g hq h8 hdiv hg
+  have : Fact (mkTables (2 ^ K) q (2 ^ (K + 1)) g).q.Prime := ⟨hq⟩
+  have h : (nttStd (mkTables (2 ^ K) q (2 ^ (K + 1)) g) a).map (Nat.cast : ℕ → ZMod q)
+      = (List.range (2 ^ K)).map (fun t => evalL (a.map (Nat.cast : ℕ → ZMod q))
+          (pt (rho q (mkTables (2 ^ K) q (2 ^ (K + 1)) g).rootsF) K 1 t)) :=
+    (nttStd_eval (T := mkTables (2 ^ K) q (2 ^ (K + 1)) g) hT hinv a hlen ha).1
+  rw [h]
+  apply List.map_congr_left
+  intro t ht
+  rw [mkTables_pt K q g hK hq h8 hdiv hg t (List.mem_range.1 ht), evalL_eq_sum, List.length_map, hlen]
+  apply sum_congr rfl
+  intro i _
+  rw [getD_map_cast]
 
 /-- a primitive root modulo an odd prime is a quadratic non-residue (Euler) -/
 theorem nonresidue_of_primitive (q g : ℕ) [Fact q.Prime] (hodd : q % 2 = 1)
